@@ -118,14 +118,25 @@ def harness(g, chart, level, canary=False):
     from sismic.interpreter import Interpreter
     from sismic.exceptions import PropertyStatechartError, NonDeterminismError, ConflictingTransitionsError
 
+    recs = {'mon': [], 'twin': []}
+
+    def mkCS(tag):
+        def CS(*flags):
+            recs[tag].append(flags)
+            return True
+        return CS
+
     def hook(kind, ident):
         if kind == 'action':
             if ident == 0:    # a notify followed by a send in one fragment: their order must be kept
                 return "A(0)\nnotify('note', k=0)\nsend('b', k=0)\nnotify('note', k=9)"
             return "A(%d)\nnotify('note', k=%d)" % (ident, ident)
         return None
-    mon = Inst(g, chart, 'id', code_hook=hook, cache_key=('c10',), tag='mon')
-    twin = Inst(g, chart, 'id', sc=(mon.sc, mon.trs, mon.cm), tag='twin')
+    mon = Inst(g, chart, 'id', code_hook=hook, cache_key=('c10',), tag='mon', extra_context={'CS': mkCS('mon'), 'cs': []})
+    if ('inv', 'c10') not in g.cache:       # contracts are added once per cached chart
+        mon.sc.state_for(mon.cm.names[0]).invariants.append("CS(sent('note'), sent('b'))")
+        g.cache[('inv', 'c10')] = True
+    twin = Inst(g, chart, 'id', sc=(mon.sc, mon.trs, mon.cm), tag='twin', extra_context={'CS': mkCS('twin'), 'cs': []})
     cm = mon.cm
     rec_sc, fail_sc = prop_charts(g)
     heard = []        # recording callable: (view, position in monitored code log)
@@ -212,6 +223,8 @@ def harness(g, chart, level, canary=False):
             ('monitored_run_equals_unmonitored_run', same_values(step_view(mon, ms, None), step_view(twin, ts, None)),
              lambda: dict(info(), mon=str(step_view(mon, ms, None)), twin=str(step_view(twin, ts, None)))),
             ('same_configuration', mon.it.configuration == twin.it.configuration, info),
+            ('contracts_see_the_same_sent_events_with_and_without_monitors', recs['mon'] == recs['twin'],
+             lambda: dict(info(), monitored=str(recs['mon'][-6:]), unmonitored=str(recs['twin'][-6:]))),
         ])
         check_positions()
         if any(x[0] == 'note' for x in exp):
